@@ -54,11 +54,19 @@ type waitReadCloser struct {
 	io.ReadCloser
 	wait     chan struct{}
 	waitOnce sync.Once
+
+	// first error returned by Read; once wait is closed the upload request
+	// completes and net/http closes the body, so it can't be asked again
+	err error
 }
 
 func (w *waitReadCloser) Read(p []byte) (int, error) {
+	if w.err != nil {
+		return 0, w.err
+	}
 	n, err := w.ReadCloser.Read(p)
 	if err != nil {
+		w.err = err
 		w.waitOnce.Do(func() { close(w.wait) })
 	}
 	return n, err
